@@ -548,7 +548,7 @@ class Run:
                     break
                 owed = self._owed(script)
                 if owed is None:
-                    self.stuck = {'state': self.proc.state.value, 'paused': self.proc.paused, 'phase': phase_of(proc)}
+                    self.stuck = {'state': self.proc.state.value, 'paused': self.proc.paused, 'phase': phase_of(self.proc)}
                     break
                 self.apply(owed, via='drain')
                 if not self._pump():
